@@ -250,7 +250,7 @@ func Gen(r *R, o *Options) *Def {
 	switch form {
 	case "longlat":
 		d.Proj = "longlat"
-		d.Lon0, d.DLon, d.LatMin, d.LatMax = 0, 180, -89, 89
+		d.Lon0, d.DLon, d.LatMin, d.LatMax = 0, 180, -85, 85
 	case "merc":
 		d.Proj = "merc"
 		d.Params = " +lon_0=" + F(lon0) + " +lat_ts=" + F(r.Range(-60, 60)) + fo
